@@ -78,6 +78,7 @@ def _g12(facts, rep):
     free = tors = 0
     rng_ok = None
     probs = []
+    unknown = []
     for p in SymEx(cg, havoc_loops=True, max_paths=20000).run():
         calls = [(e.name.split('::')[-1], [argstr(a) for a in e.args]) for e in p.calls()]
         flat = []
@@ -97,23 +98,48 @@ def _g12(facts, rep):
                 want = 'Range::Range{start: 0, end: AddWithOverflow(rank(%s), len(tors(%s))).0}' % (H, H)
                 rng_ok = (a[0] == want) if rng_ok in (None, True) else False
                 if a[0] != want:
-                    probs.append('generators are enumerated over %s, expected 0 .. rank + #tors' % a[0])
+                    if re.match(r'^Range::Range\{start: \d+, end: (AddWithOverflow|SubWithOverflow|rank|len|tors|next|IT1|Some|[0-9]|[()., ])*\}$', a[0]):
+                        probs.append('generators are enumerated over %s, expected 0 .. rank + #tors' % a[0])
+                    else:
+                        unknown.append('generators are enumerated over %s' % a[0][:120])
         inner = [(b, e.value) for b, e in zip(brs, p.branches()) if b == 'discr(next(IT2))']
         if not inner or inner[-1][1] != 1:
             continue
         if len(tbl) != 1:
-            probs.append('generator k touches %d table entries' % len(tbl))
+            unknown.append('generator k touches %d table entries' % len(tbl))
             continue
         entry = ENTRY.replace('TABLE', tbl[0])
-        lt = [(b, e.value) for b, e in zip(brs, p.branches()) if b == 'Lt(%s, rank(%s))' % (K, H)]
+        RK = 'rank(%s)' % H
+        lt = [(re.match(r'(Lt|Le|Gt|Ge)\((.*), (.*)\)$', b), e.value) for b, e in zip(brs, p.branches())]
+        lt = [(m, v) for m, v in lt if m and {m.group(2), m.group(3)} == {K, RK}]
         if len(lt) != 1:
-            probs.append('the free / torsion decision is not `k < rank`: %s' % [b for b in brs if b.startswith('Lt(')][:2])
+            unknown.append('the free / torsion decision is not a single comparison of k with rank: %s' % [b for b in brs if b[:3] in ('Lt(', 'Le(', 'Gt(', 'Ge(')][:2])
             continue
-        is_free = lt[0][1] != 0
+        m, v = lt[0]
+        region = set()
+        for kk in range(0, 4):
+            for rr in range(0, 4):
+                x, y = (kk, rr) if m.group(2) == K else (rr, kk)
+                holds = {'Lt': x < y, 'Le': x <= y, 'Gt': x > y, 'Ge': x >= y}[m.group(1)]
+                if holds == (v != 0):
+                    region.add((kk, rr))
+        free_region = {(kk, rr) for kk in range(4) for rr in range(4) if kk < rr}
+        all_region = {(kk, rr) for kk in range(4) for rr in range(4)}
+        if region == free_region:
+            is_free = True
+        elif region == all_region - free_region:
+            is_free = False
+        else:
+            probs.append('the free / torsion decision is `%s` = %s instead of `k < rank`' % (m.group(0), v != 0))
+            continue
         pushes = [a for n, a in calls if n == 'push']
         idx_push = [a for a in pushes if a[0] == '&mut *%s.2' % entry and a[1] == K]
         tor_push = [a for a in pushes if a[0] == '&mut *%s.1' % entry]
         cnt = [w for w in wr if w[0] == '&mut *%s.0' % entry]
+        other = [a for a in pushes if a not in idx_push and a not in tor_push]
+        if not pushes or any(a[0] != '&mut *%s.2' % entry for a in other):
+            unknown.append('generator k is recorded through %s' % ([[x[:70] for x in a] for a in pushes] or 'no push'))
+            continue
         if len(idx_push) != 1 or len(pushes) != len(idx_push) + len(tor_push):
             probs.append('generator k (%s) does not record its index exactly once under (i, q_deg(gen k)): pushes %s' % ('free' if is_free else 'torsion', [[x[:70] for x in a] for a in pushes]))
             continue
@@ -128,11 +154,10 @@ def _g12(facts, rep):
             if len(tor_push) != 1 or tor_push[0][1] not in (want, 'clone(&%s)' % want) or cnt:
                 probs.append('a torsion generator (k >= rank) must contribute tors[k - rank] and no rank: pushes %s' % [a[1][:90] for a in tor_push])
     inst = 'collect_gen_info|every generator filed once under (i, q_deg), free iff k < rank'
-    if free == 0 or tors == 0 or rng_ok is None:
-        if probs:
-            rep.violation('E23.G1-partition-by-qdeg', inst, '; '.join(sorted(set(probs))[:3]), where=cg.where())
-        else:
-            rep.indet('E23.G1: collect_gen_info outside the recognised fragment (free paths %d, torsion paths %d)' % (free, tors))
+    if probs:
+        rep.violation('E23.G1-partition-by-qdeg', inst, '; '.join(sorted(set(probs))[:3]), where=cg.where())
+    elif unknown or free == 0 or tors == 0 or rng_ok is None:
+        rep.indet('E23.G1: collect_gen_info outside the recognised fragment (free paths %d, torsion paths %d): %s' % (free, tors, sorted(set(unknown))[:2]))
     elif probs:
         rep.violation('E23.G1-partition-by-qdeg', inst, '; '.join(sorted(set(probs))[:3]), where=cg.where())
     else:
@@ -144,23 +169,44 @@ def _g12(facts, rep):
         rep.indet('E23: KhHomology::into_bigraded not found')
         return
     rep.saw(hb)
-    shapes = set()
+    from symex import peel
+    good = 0
+    bad = []
+    unknown = []
+    zero_ok = False
     for k, b in cl.items():
         for p in SymEx(b).run():
-            if p.end == 'return' and any(e.name.split('::')[-1] == 'get' for e in p.calls()):
-                br = tuple((sk(e.term), 1 if e.value == 1 else 0) for e in p.branches())
-                shapes.add((sk(p.ret), br))
-    want = {('new(clone(raw_gens(index(*arg1.^self, arg2.0))), *get(&*arg1.^table, &arg2).Some.0.0, clone(&*get(&*arg1.^table, &arg2).Some.0.1), sub(trans(index(*arg1.^self, arg2.0)), deref(&*get(&*arg1.^table, &arg2).Some.0.2)))',
-             (('discr(get(&*arg1.^table, &arg2))', 1),)),
-            ('zero()', (('discr(get(&*arg1.^table, &arg2))', 0),))}
+            if p.end != 'return' or not any(e.name.split('::')[-1] == 'get' for e in p.calls()):
+                continue
+            found = [e.value for e in p.branches() if sk(peel(e.term)).startswith('discr(get(')]
+            r = peel(p.ret)
+            txt = re.sub(r'\^_ref__', '^', sk(r))
+            if found and found[-1] != 1:
+                if txt == 'zero()':
+                    zero_ok = True
+                else:
+                    unknown.append('no entry: ' + txt[:120])
+                continue
+            if not (r[0] == 'call' and r[1].split('::')[-1] == 'new' and len(r[2]) == 4):
+                unknown.append(txt[:160])
+                continue
+            a = [re.sub(r'\^_ref__', '^', sk(x)) for x in r[2]]
+            m = re.match(r'(get\(arg1\.\^table, arg2\)\.Some\.0)\.0$', a[1])
+            E = m.group(1) if m else 'get(arg1.^table, arg2).Some.0'
+            want = ['raw_gens(index(arg1.^self, arg2.0))', E + '.0', E + '.1', 'sub(trans(index(arg1.^self, arg2.0)), %s.2)' % E]
+            if a == want:
+                good += 1
+            elif all(re.match(r'^(raw_gens|index|trans|sub|get|Some|len|rank|tors|is_empty|arg[12]|\^self|\^table|[0-9]|[()., ])*$', x) for x in a):
+                bad.append('new(%s)' % ', '.join(a))
+            else:
+                unknown.append('new(%s)' % ', '.join(a)[:200])
     inst = 'KhHomology::into_bigraded|piece (i, j) = table[(i, j)] as (rank, tors, indices) over H_i'
-    norm = {(re.sub(r'\^_ref__', '^', a), tuple((re.sub(r'\^_ref__', '^', t), v) for t, v in b)) for a, b in shapes}
-    if norm == want:
-        rep.ok('E23.G2-piece-from-same-key', inst, 'Summand::new(gens(H_i), rank, tors, trans(H_i).sub(indices)) | zero')
-    elif not shapes:
-        rep.indet('E23.G2: no closure of into_bigraded looks the table up')
+    if bad:
+        rep.violation('E23.G2-piece-from-same-key', inst, 'the bigraded piece is assembled as %s, expected Summand::new(gens(H_i), entry.rank, entry.tors, trans(H_i).sub(entry.indices)) with entry = table[(i, j)]' % sorted(bad)[:2], where=hb.where())
+    elif unknown or not good or not zero_ok:
+        rep.indet('E23.G2: into_bigraded outside the recognised fragment: %s (entry paths %d, zero for a missing key: %s)' % (sorted(unknown)[:2], good, zero_ok))
     else:
-        rep.violation('E23.G2-piece-from-same-key', inst, 'the bigraded piece is assembled as %s' % sorted(x[0][:260] for x in norm - want), where=hb.where())
+        rep.ok('E23.G2-piece-from-same-key', inst, 'Summand::new(gens(H_i), rank, tors, trans(H_i).sub(indices)) | zero')
 
 
 def _ord_atom(env):
